@@ -249,7 +249,7 @@ func AggsOver(vec string, groupings []string, kparams, qparams []string) []strin
 	return out
 }
 
-var KParamsF = []string{"1", "2", "5", "0", "-1", "1.5", "NaN", "1e30", `scalar(b{l="0"})`, `scalar(b{l="0"}) - 6`}
+var KParamsF = []string{"1", "2", "5", "0", "-1", "1.5", "NaN", "1e30", "1e18", `scalar(b{l="0"})`, `scalar(b{l="0"}) - 6`}
 var QParamsF = []string{"0.5", "0", "1", "-1", "2", "NaN", `scalar(b{l="0"}) / 10`}
 
 // BinsOver builds binary expressions between l and r.
